@@ -23,7 +23,7 @@ type H struct {
 func (H) ID() string { return "C05" }
 
 // Version implements harness.Harness.
-func (H) Version() string { return "c05-v1" }
+func (H) Version() string { return "c05-v2" }
 
 // Runs implements harness.Harness.
 func (H) Runs(tier string) int {
@@ -36,8 +36,8 @@ func (H) Runs(tier string) int {
 // Meta implements harness.Harness.
 func (H) Meta() harness.Meta {
 	return harness.Meta{
-		Rule: "each run = one seeded workload (the C11 generator: copies on sub-ranges, copy kernels, queued and synchronous, emulation platforms with 1-4 GPUs and the shipped r9nano/mi300a timing platforms with the DMA path) executed 4 times in fresh processes with the event order of the stock SerialEngine (faithful mode): " +
-			"once under the canonical host schedule, twice under different drawn host schedules (at every yield point of the real driver threads and between engine events the controller draws which of application thread, runAsync and engine goroutine runs; engine bursts of drawn length), and once more with the first drawn schedule under another GOMAXPROCS. " +
+		Rule: "each run = one seeded workload (the C11 generator: copies on sub-ranges, copy kernels, queued and synchronous, emulation platforms with 1-4 GPUs and the shipped r9nano/mi300a timing platforms with the DMA path) executed 5 times in fresh processes with the event order of the stock SerialEngine (faithful mode): " +
+			"once under the canonical host schedule, twice under different drawn host schedules (at every yield point of the real driver threads and between engine events the controller draws which of application thread, runAsync and engine goroutine runs; engine bursts of drawn length), and once more each with the first drawn schedule and the canonical schedule under another GOMAXPROCS (a replay repeats these same-schedule runs 8 more times: a run-to-run difference is not a function of the seed). " +
 			"Observables: simulated time at every return of a driver API call, final simulated time, number of engine events, digest of all device buffers. Oracle: R1 equal for the same host schedule across processes / GOMAXPROCS; R2a times and event counts equal across host schedules; R2b data equal across host schedules. " +
 			"non-trivial = the drawn schedules differ from the canonical one by at least 2 context switches; distinct = distinct (workload digest, schedule digests)",
 		RealComponents: []string{"everything of C11/C12: real driver threads, command processor, DMA engine, memory system, emulation or shipped timing platforms"},
@@ -95,6 +95,15 @@ func (h H) Run(ch *choice.Source, opt harness.Options) harness.Result {
 		{"schedule-A", fmt.Sprint(s1), 0},
 		{"schedule-B", fmt.Sprint(s2), 0},
 		{"schedule-A-again", fmt.Sprint(s1), procs},
+		{"canonical-again", "canonical", procs},
+	}
+	if ch.IsReplay() {
+		// a run-to-run difference is not a function of the seed: a replay repeats the same-schedule runs
+		// several times so that it shows the difference again with high probability
+		for i := 0; i < 4; i++ {
+			specs = append(specs, runSpec{fmt.Sprintf("schedule-A-again-%d", i+2), fmt.Sprint(s1), []int{1, 4, 16}[i%3]},
+				runSpec{fmt.Sprintf("canonical-again-%d", i+2), "canonical", []int{16, 1, 4}[i%3]})
+		}
 	}
 	res := harness.Result{ConfigDigest: w, Probes: map[string]uint64{"gomaxprocs_varied": 1}, Faults: map[string]uint64{}}
 	var all []obs
@@ -152,10 +161,24 @@ func (h H) Run(ch *choice.Source, opt harness.Options) harness.Result {
 		}
 		return ""
 	}
+	// R1: every repetition of a schedule must agree with its first run
+	r1 := ""
+	for i := 3; i < len(specs); i++ {
+		ref := 1
+		if specs[i].sched == "canonical" {
+			ref = 0
+		}
+		if all[ref].Data != all[i].Data || diffTimes(all[ref], all[i]) != "" {
+			r1 = fmt.Sprintf("the same workload under the same controlled host schedule gave different observables in two processes (GOMAXPROCS default vs %d): %s | %s", specs[i].procs, describe(ref), describe(i))
+			break
+		}
+	}
 	switch {
-	case all[1].Data != all[3].Data || diffTimes(all[1], all[3]) != "":
+	case r1 != "":
 		res.Rule, res.Signature = "R1", "same-schedule-differs-across-processes"
-		res.Detail = fmt.Sprintf("the same workload under the same controlled host schedule gave different observables in two processes (GOMAXPROCS default vs %d): %s | %s", procs, describe(1), describe(3))
+		res.Detail = r1
+		// by this very verdict the event order is not a function of the seed: the replay identity is the seeds
+		res.OrderDigest = w*1099511628211 ^ s1*31 ^ s2
 	case all[0].Data != all[1].Data || all[0].Data != all[2].Data:
 		res.Rule, res.Signature = "R2b", "device-data-differs-across-host-schedules"
 		res.Detail = fmt.Sprintf("device data depends on the host schedule: %s | %s | %s", describe(0), describe(1), describe(2))
@@ -174,7 +197,7 @@ func (h H) Run(ch *choice.Source, opt harness.Options) harness.Result {
 	}
 	if opt.Verbose || res.Failed() {
 		res.Sample = map[string]any{"workload_seed": w, "schedule_seeds": []uint64{s1, s2}, "gomaxprocs": procs,
-			"observables": []string{describe(0), describe(1), describe(2), describe(3)}, "switches": switches}
+			"observables": []string{describe(0), describe(1), describe(2), describe(3), describe(4)}, "switches": switches}
 	}
 	return res
 }
